@@ -25,7 +25,13 @@ class LoopSpec:
     by the invariant.
     """
 
-    def __init__(self, inv, fresh=None, label=None, unroll=False, shapes=None, hints=None, modifies=()):
+    def __init__(self, inv, fresh=None, label=None, unroll=False, shapes=None, hints=None, modifies=(), variant=None):
+        # variant(view) -> ("int", t)            : t is an integer term, >= 0 whenever the body is entered, and every path back to
+        #                                           the loop head decreases it by at least 1            (termination: well-founded)
+        #                  ("halving", g, tol)   : g is a real term with g >= tol > 0 whenever the loop continues and every path
+        #                                           back to the head at least halves it                  (termination: Lean
+        #                                           lemma halving_terminates in lemmas/Term.lean)
+        self.variant = variant
         self.modifies = tuple(modifies)   # attribute paths written by callees inside the loop (checked by the frame check)
         self.hints = hints    # hints(view) -> [(label, premise, conclusion)]: prove premise, then assume conclusion
         self.inv = inv
@@ -69,6 +75,7 @@ class Interp:
         self.obligations = []
         self.loopspecs = {}           # (module, qualname) -> {ordinal: LoopSpec}
         self.cur = []                 # stack of (module, qualname)
+        self.terminating = set()      # ((module, qualname), loop ordinal, kind) of while loops with a checked variant
         self.solver_timeout = 10000
         self.prune = True
         self.check_div = False
@@ -725,8 +732,24 @@ class Interp:
                     exits.append(st_exit)
             if c is not False and (c is True or self.feasible(st, c)):
                 st.assume(c)
+                v0 = None
+                if spec.variant is not None:
+                    v0 = spec.variant(View(self, st, pre=pre))
+                    self.terminating.add((self.cur[-1], ordinal, v0[0]))
+                    if v0[0] == "int":
+                        self.oblige(f"{tag}-variant-bounded-below", st, to_z3(v0[1], "int") >= 0, s,
+                                    note="the integer variant is non-negative whenever the loop body is entered")
                 for o in self.exec_block(s.body, st, module):
                     self.frame_check(snap, o.state, s.body, spec, s)
+                    if o.kind in ("fall", "continue") and v0 is not None:
+                        v1 = spec.variant(View(self, o.state, pre=pre))
+                        if v0[0] == "int":
+                            self.oblige(f"{tag}-variant-decreases", o.state, to_z3(v1[1], "int") <= to_z3(v0[1], "int") - 1, s,
+                                        note="every path back to the loop head decreases the integer variant")
+                        else:
+                            g0, g1, tol = to_z3(v0[1], "real"), to_z3(v1[1], "real"), to_z3(v0[2], "real")
+                            self.oblige(f"{tag}-variant-halves", o.state, z3.And(tol > 0, g0 >= tol, 2 * g1 <= g0), s,
+                                        note="every path back to the loop head at least halves the gap, which is still >= tol > 0")
                     if o.kind in ("fall", "continue"):
                         self.inv_check(spec, View(self, o.state, pre=pre), f"{tag}-inv-preserved", s)
                     elif o.kind == "break":
